@@ -418,6 +418,34 @@ func validateArbitraryData(ms *MidState, txn types.Transaction) error {
 	return nil
 }
 
+// validCoveredFields reports whether every index in cf refers to a field that
+// is present in txn. WholeSigHash and PartialSigHash index the transaction with
+// these values and would otherwise panic.
+func validCoveredFields(txn types.Transaction, cf types.CoveredFields) bool {
+	inRange := func(indices []uint64, n int) bool {
+		for _, i := range indices {
+			if i >= uint64(n) {
+				return false
+			}
+		}
+		return true
+	}
+	if cf.WholeTransaction {
+		// only the covered signatures are consulted
+		return inRange(cf.Signatures, len(txn.Signatures))
+	}
+	return inRange(cf.SiacoinInputs, len(txn.SiacoinInputs)) &&
+		inRange(cf.SiacoinOutputs, len(txn.SiacoinOutputs)) &&
+		inRange(cf.FileContracts, len(txn.FileContracts)) &&
+		inRange(cf.FileContractRevisions, len(txn.FileContractRevisions)) &&
+		inRange(cf.StorageProofs, len(txn.StorageProofs)) &&
+		inRange(cf.SiafundInputs, len(txn.SiafundInputs)) &&
+		inRange(cf.SiafundOutputs, len(txn.SiafundOutputs)) &&
+		inRange(cf.MinerFees, len(txn.MinerFees)) &&
+		inRange(cf.ArbitraryData, len(txn.ArbitraryData)) &&
+		inRange(cf.Signatures, len(txn.Signatures))
+}
+
 func validateSignatures(ms *MidState, txn types.Transaction) error {
 	// build a map of all outstanding signatures
 	//
@@ -465,6 +493,8 @@ func validateSignatures(ms *MidState, txn types.Transaction) error {
 			return fmt.Errorf("signature %v is redundant", i)
 		} else if sig.Timelock > ms.base.childHeight() {
 			return fmt.Errorf("timelock of signature %v has not expired", i)
+		} else if !validCoveredFields(txn, sig.CoveredFields) {
+			return fmt.Errorf("signature %v covers fields not present in the transaction", i)
 		}
 		e.used[sig.PublicKeyIndex] = true
 		e.need--
